@@ -439,9 +439,28 @@ COLUMN_OVER_ARRAY_META = {'inputs': ['Sheet1!A1', 'Sheet1!A2', 'Sheet1!A3'],
                                     'Sheet1!E1', 'Sheet1!E2']}
 
 
+def array_over_column(target):
+    """the other way round: an array formula which reads a whole column (its target left or right of that column)"""
+    cells = wb.range_cells(target)
+    members = [f'Sheet1!{r[0]}' for r in cells]
+    spec = {'sheets': [['Sheet1', {'D1': 1, 'D2': 2, 'D3': 3, 'F1': f'=SUM({target})', 'F2': '=F1+D1'}]],
+            'names': {}, 'arrays': [['Sheet1', target, '=D:D*2']], 'calc': None}
+    inputs = ['Sheet1!D1', 'Sheet1!D2', 'Sheet1!D3']
+    formulas = {m: {'form': 'cse', 'deps': [i]} for m, i in zip(members, inputs)}
+    formulas['Sheet1!F1'] = {'form': 'agg', 'deps': inputs}
+    formulas['Sheet1!F2'] = {'form': 'arith', 'deps': inputs + ['Sheet1!F1']}
+    return spec, {'inputs': inputs, 'formulas': formulas, 'order': inputs + members + ['Sheet1!F1', 'Sheet1!F2']}
+
+
 def directed(ctx):
     """the two text classes recorded as known findings, reproduced on every run"""
     for fmt in ('yml', 'json', 'pkl'):
+        for target in ('A1:A3', 'G1:G3'):
+            spec, meta = array_over_column(target)
+            one_round_trip(ctx, spec, meta, fmt, 'same', None,
+                           [['eval', 'Sheet1!F2'], ['set', 'Sheet1!D2', 20], ['eval', 'Sheet1!F2'],
+                            ['eval', meta['order'][4]]], [], 1)
+            ctx.count('directed:array-over-column')
         one_round_trip(ctx, COLUMN_OVER_ARRAY_SPEC, COLUMN_OVER_ARRAY_META, fmt, 'same', None,
                        [['eval', 'Sheet1!E2'], ['set', 'Sheet1!A2', 20], ['eval', 'Sheet1!E2'], ['eval', 'Sheet1!C2']],
                        [], 1)
@@ -502,6 +521,46 @@ def save_sequences(ctx):
                     break
 
 
+def alternating_saves(ctx):
+    """directed: one base name, the model alternates between two states and the saves between two text kinds (always
+    with the pickle); after every save both files it wrote hold the model as it is then"""
+    import time
+    from pycel import ExcelCompiler
+    spec = {'sheets': [['Sheet1', {'A1': 1, 'B1': '=A1*2', 'C1': '=B1&"x"'}]], 'names': {}, 'arrays': [], 'calc': None}
+    for kinds in (('yml', 'json'), ('json', 'yml'), ('yaml', 'json')):
+        for period in (2, 3):
+            base = os.path.join(ctx.tmpdir, f'alt-{kinds[0]}-{kinds[1]}-{period}-model')
+            comp = wb.compile_mem(spec)
+            case = {'kind': 'alternating-saves', 'kinds': list(kinds), 'period': period}
+            try:
+                for k in range(7):
+                    value = (1, 10, 100)[k % period]
+                    text = kinds[k % 2]
+                    comp.set_value('Sheet1!A1', value)
+                    comp.evaluate('Sheet1!C1')
+                    time.sleep(0.02)
+                    comp.to_file(base, file_types=('pkl', text))
+                    ctx.count('directed:alternating_saves')
+                    ctx.case(('alternating-saves', kinds, period, k))
+                    for ext in ('pkl', text):
+                        got = wb.outcome(ExcelCompiler.from_file(f'{base}.{ext}').evaluate, 'Sheet1!C1')
+                        if got != ('v', f'{2 * value}x'):
+                            ctx.violation(f'file-written-by-to_file-holds-an-older-model/{"pkl" if ext == "pkl" else "text"}',
+                                          f'save number {k + 1} of a model alternating between {period} states, with the '
+                                          f'pickle and alternately {kinds[0]} / {kinds[1]}: the model loaded from the {ext} '
+                                          f'file gives C1 = {got!r}, the saved model has {2 * value}x', case)
+                            raise StopIteration
+            except StopIteration:
+                pass
+            except Exception as exc:
+                if not wb.raised_outside_harness(exc):
+                    raise
+                ctx.violation('save-sequence-raises', f'{wb.describe(exc)} [{case}]', case)
+            finally:
+                for f in glob.glob(base + '.*'):
+                    os.remove(f)
+
+
 def relative_name_case(ctx):
     """directed: a model compiled from a workbook given by a relative file name; the name is part of what survives"""
     from pycel import ExcelCompiler
@@ -542,6 +601,7 @@ def run(ctx):
     if ctx.shard == 0:
         directed(ctx)
         save_sequences(ctx)
+        alternating_saves(ctx)
         relative_name_case(ctx)
     # save / load of the workbooks shipped with the repository
     realbooks.run_cases(ctx, realbooks.c03_case, realbooks.acyclic_books(), 6 if ctx.quick else 60, fraction=0.25)
@@ -573,6 +633,9 @@ def replay(ctx, case):
         return
     if case.get('kind') == 'save-sequence':
         save_sequences(ctx)
+        return
+    if case.get('kind') == 'alternating-saves':
+        alternating_saves(ctx)
         return
     if case.get('kind') == 'real-book':
         realbooks.c03_case(ctx, case['book'], case['case_seed'])
